@@ -116,6 +116,13 @@ pub fn dual(t: &Tree, var: &str) -> Result<(Sym, Option<Sym>), String> {
                     let t2 = rd.map(|d| b(o.mul, &b(o.mul, &val, &u("ln", &lv)), &d));
                     plus(t1, t2)
                 }
+                // comparisons keep their value as 'derivative'; if/else differentiate per operand
+                "<" | "<=" | ">" | ">=" | "==" | "!=" => Some(Sym(val.0)),
+                "if" | "else" => {
+                    let x = ld.unwrap_or_else(|| rat(0));
+                    let y = rd.unwrap_or_else(|| rat(0));
+                    Some(BIN_FNS[*kk as usize](x, y))
+                }
                 other => return Err(format!("no derivative rule for {other}")),
             };
             (val, der)
@@ -667,6 +674,77 @@ pub fn c05(args: &Args) -> i32 {
             "domain = side conditions of the ORIGINAL function and its reference derivative only (denominators != 0, log/sqrt arguments > 0, |arg| < 1 for asin/acos/atanh, arg > 1 for acosh, base > 0 for non-integer exponents)",
             "metadata of the default table transplanted to T = Sym; the f64 function bodies are C19's subject"],
         "outside": ["the f64 instantiation itself (rounding)", "trees outside the pool", "orders > 1 (covered as bookkeeping identities in C09)"],
+    }))
+}
+
+// ---------------------------------------------------------------------------------------------
+// C18 piecewise expressions over the value table
+// ---------------------------------------------------------------------------------------------
+
+pub fn c18(args: &Args) -> i32 {
+    let quick = args.tier_quick();
+    let mut tab = crate::extra::val_table();
+    tab.arithmetic = true;
+    table::set_table(&tab);
+    let o = ops();
+    let (kif, kelse) = (k("if"), k("else"));
+    let fs: Vec<Tree> = vec![
+        Tree::bin(o.mul, v("x"), v("y")),
+        Tree::un(k("sin"), v("x")),
+        Tree::bin(o.pow, v("x"), l("2")),
+        l("3"),
+        Tree::bin(o.add, v("x"), l("1")),
+        Tree::bin(o.div, v("y"), v("x")),
+        Tree::un(k("exp"), Tree::bin(o.mul, l("2"), v("x"))),
+        v("y"),
+    ];
+    let cs: Vec<Tree> = vec![
+        Tree::bin(k("<"), v("x"), v("y")),
+        Tree::bin(k(">="), v("x"), l("2")),
+        Tree::bin(k("=="), v("x"), v("y")),
+        Tree::bin(k("!="), v("y"), l("1")),
+        Tree::bin(k(">"), Tree::bin(o.mul, v("x"), v("x")), v("y")),
+        Tree::bin(k("<="), Tree::un(k("sin"), v("x")), l("0.5")),
+    ];
+    let pw = |f: &Tree, c: &Tree, g: &Tree| Tree::bin(kelse, Tree::bin(kif, f.clone(), c.clone()), g.clone());
+    let mut pool: Vec<Tree> = vec![];
+    let mut ctr = args.seed();
+    for f in &fs {
+        for c in &cs {
+            for g in &fs {
+                ctr += 1;
+                if quick && ctr % 2 != 0 {
+                    continue;
+                }
+                let p = pw(f, c, g);
+                pool.push(p.clone());
+                match ctr % 6 {
+                    0 => pool.push(Tree::bin(o.mul, Tree::paren(p.clone()), v("y"))),
+                    1 => pool.push(Tree::un(k("sin"), p.clone())),
+                    2 => pool.push(Tree::bin(o.add, v("x"), Tree::paren(p.clone()))),
+                    3 => pool.push(pw(f, c, &Tree::paren(pw(g, &cs[(ctr as usize) % cs.len()], f)))),
+                    4 => pool.push(Tree::bin(o.sub, Tree::paren(p.clone()), Tree::paren(pw(g, &cs[(ctr as usize + 1) % cs.len()], f)))),
+                    _ => pool.push(pw(&Tree::paren(pw(f, &cs[(ctr as usize + 2) % cs.len()], g)), c, g)),
+                }
+            }
+        }
+    }
+    let _ = std::panic::take_hook();
+    std::panic::set_hook(Box::new(|_| {}));
+    let tab1 = tab.clone();
+    let (o1, w1) = par_calc(args, &tab, true, &pool, &move |t: &Tree, _i, out| check_derivative(&tab1, t, 1, &[Form::Flat, Form::Deep], out, 48));
+    let _ = std::panic::take_hook();
+    let p1 = to_part("piecewise", o1, w1, json!({
+        "table": "metadata of the real ValOpsFactory::<i32,f64>::make() transplanted to T = Sym",
+        "pool": format!("{} expressions: `f if c else g` for 8 branch expressions x 6 comparison conditions (quick: every 2nd), each also inside arithmetic, under sin, with a nested piecewise branch, as difference of two piecewise terms, with a piecewise first branch", pool.len()),
+        "interpretation": "`a if c` = ite(c != 0, a, none), `r else b` = ite(r = none, b, r), comparisons = ite(.., 1, 0) over the reals; none is a constant different from every branch value",
+        "reference": "dual numbers; comparisons keep their value, if/else differentiate per operand, so the reference derivative is ite(c, f', g')",
+        "forms": ["flat", "deep"],
+    }));
+    finish(args, "C18", vec![p1], vec![], json!({
+        "functions": ["partial::make_partial_derivative_ops (if, else, comparison entries)", "partial::partial_derisval", "partial::partial_derivative_inner", "DeepEx::operate_bin"],
+        "assumptions": ["reals for numbers; the value kinds (Int/Float mixing, From<f32>, From<u8>, the if/else/comparison functions themselves) are engine K's cells", "a condition is not differentiated, so no assumption about branch boundaries is needed for the expression-level claim"],
+        "outside": ["arrays (documented as unsupported by differentiation)", "piecewise nesting deeper than 2"],
     }))
 }
 
